@@ -102,6 +102,9 @@ impl ChainMonitorBase {
 }
 
 impl ChainMonitor {
+    // `self.get_state()` (lock guard, read here): the shared state (sequential model)
+    #[verifier::external_body]
+    pub fn get_state(&self) -> (r: &State) ensures *r == self.state.val { unimplemented!() }
 //@fn vls-core/src/monitor.rs :: impl ChainListener for ChainMonitor :: on_streamed_block_start props=C14,C13
 //@sigsub /&self/ => &mut self
     ensures
